@@ -141,9 +141,9 @@ func PrepareQuery(ctx context.Context, typ Type, selectionSet *SelectionSet) err
 				if selection.SelectionSet != nil {
 					return NewClientError(`scalar field "__typename" must have no selection`)
 				}
-				for _, fragment := range selectionSet.Fragments {
-					fragment.SelectionSet.Selections = append(fragment.SelectionSet.Selections, selection)
-				}
+				// The executor resolves selections made on the union itself for every
+				// member; they must not be pushed into the fragments, whose selection
+				// sets are shared with every other use of the same named fragment.
 				continue
 			}
 			return NewClientError(`unknown field "%s"`, selection.Name)
